@@ -215,12 +215,14 @@ theorem other_exception_not_success (path text : List Char) (e : String) (outcom
     (ho : outcome (fileLines text) = .other e) : (main true path text outcome).exit ≠ 0 ∧ (main true path text outcome).crash = some e := by
   simp [main, ho]
 
-/-- non-vacuity: a fault on line 5 of a seven-line file written with CRLF line ends -/
+/-- non-vacuity: a fault on line 5 of a seven-line file written with CRLF line ends (stated with the regenerated literals, so a reworded header or
+another context length in the source does not touch it): the premises of `marks_offending_line` hold and the marked line is line 5 -/
 example :
-    let text := "# one\r\n# two\r\nA = X()\r\n\r\nBad = Nope(X = 1)\r\n# six\r\n# seven\r\n".toList
-    (main true "m.mpt".toList text (fun _ => .mpError "Problem: p\nSolution: s".toList true (some 5))).stderr =
-      ("ERROR: There was a problem running the MPilot command file.\nProblem: p\nSolution: s\n" ++
-       "    # two\n    A = X()\n    \n--> Bad = Nope(X = 1)\n    # six\n    # seven\n").toList := by
+    let text := ['#', '1', '\r', '\n', '#', '2', '\r', '\n', 'A', '\r', '\n', '\r', '\n', 'B', 'a', 'd', '\r', '\n', '#', '6', '\r', '\n', '#', '7', '\r', '\n']
+    fileLines text = [['#', '1'], ['#', '2'], ['A'], [], ['B', 'a', 'd'], ['#', '6'], ['#', '7']] ∧ (fileLines text)[5 - 1]? = some ['B', 'a', 'd'] ∧
+    (main true ['m'] text (fun _ => .mpError ['p'] true (some 5))).exit = -1 ∧
+    (main true ['m'] text (fun _ => .mpError ['p'] true (some 5))).stderr =
+      header ++ '\n' :: ['p'] ++ ['\n'] ++ excerpt (fileLines text) 4 ['B', 'a', 'd'] := by
   decide +kernel
 
 end MPilot.C13Cli
